@@ -3,7 +3,14 @@ import Sucds.Proofs.GenBitVectorRW
 import Sucds.Proofs.GenBitVectorScan
 import Sucds.Proofs.GenRank9Build
 import Sucds.Proofs.GenRank9Query
+import Sucds.Proofs.GenRank9Sel
 import Sucds.Proofs.GenCompactVector
+import Sucds.Proofs.C09GenAux
 import Sucds.Proofs.GenEFBuilder
 import Sucds.Proofs.GenIterators
+import Sucds.Proofs.GenDArray
+import Sucds.Proofs.GenDacsWidths
+import Sucds.Proofs.GenDacs
+import Sucds.Proofs.GenEliasFano
+import Sucds.Proofs.GenWaveletPipeline
 /-! All equivalence proofs between generated definitions and the model (import hub; checks that they coexist). -/
